@@ -195,23 +195,37 @@ class AsyncLRUCacheWrapper(Generic[P, T]):
 
         async with lock:
             # Check if another task filled the cache while we acquired the lock
-            if (cached_value := cache_entry[key][0]) is initial_missing:
+            entry = cache_entry.get(key)
+            if entry is None or entry[1] not in (lock, None):
+                # The entry was evicted (and possibly replaced by another task's
+                # placeholder) while we were waiting for the lock, so start over
+                entry = None
+            elif (cached_value := entry[0]) is initial_missing:
                 self._misses += 1
-                if self._maxsize is not None and self._currsize >= self._maxsize:
-                    cache_entry.popitem(last=False)
-                else:
-                    self._currsize += 1
-
                 value = await self.__wrapped__(*args, **kwargs)
                 expires_at = (
                     current_time() + self._ttl if self._ttl is not None else None
                 )
                 cache_entry[key] = value, None, expires_at
+                cache_entry.move_to_end(key)
+                self._currsize += 1
+
+                # Evict the least recently used result; never an in-flight
+                # placeholder, as other tasks may be waiting on its lock
+                if self._maxsize is not None and self._currsize > self._maxsize:
+                    for old_key, old_entry in cache_entry.items():
+                        if old_entry[1] is None:
+                            del cache_entry[old_key]
+                            self._currsize -= 1
+                            break
             else:
                 # Another task filled the cache while we were waiting for the lock
                 self._hits += 1
                 cache_entry.move_to_end(key)
                 value = cast(T, cached_value)
+
+        if entry is None:
+            return await self(*args, **kwargs)
 
         return value
 
